@@ -63,7 +63,7 @@ def r1_innermost(c, facts):
             c.bad(R, '%s:scope-iteration-not-found' % q, '%s no longer iterates a Vec of scopes in a recognisable way' % q)
 
 
-def opener_kinds(c, facts, fn, arm_variant, target_method):
+def opener_kinds(c, facts, fn, arm_variant, target_method, owner='env::Env::'):
     """kinds K such that the NodeCursor::<arm_variant> arm of resolve() dispatches K to a function that calls Env::<target_method>"""
     kinds = {}
     for e, anc in hir_walk(fn.hir['body']):
@@ -86,10 +86,10 @@ def opener_kinds(c, facts, fn, arm_variant, target_method):
                     for y, _ in hir_walk(x['then']):
                         if y['k'] == 'call':
                             tgt = facts.fns.get(callee_id(y))
-                            if tgt is not None and tgt.mir and P.call_blocks(tgt, 'env::Env::' + target_method):
+                            if tgt is not None and tgt.mir and P.call_blocks(tgt, owner + target_method):
                                 for k in ks:
                                     kinds[k] = tgt.qname
-                        if y['k'] == 'mcall' and y['m'].endswith('env::Env::' + target_method):
+                        if y['k'] == 'mcall' and y['m'].endswith(owner + target_method):
                             for k in ks:
                                 kinds.setdefault(k, fn.qname)
     return kinds
@@ -110,6 +110,17 @@ def r2_pairing(c, facts):
         c.bad(R, 'open-close-kinds-differ:%s' % ','.join(sorted(set(opens) ^ set(closes))),
               'resolve(): scopes are opened for %s but closed for %s' % (sorted(opens), sorted(closes)), **inst)
     c.floor(R, 'scope-opening node kinds', len(opens), 2)
+    # the dependency-graph builder: the kinds that open a current definition are exactly those that close it
+    gopen = opener_kinds(c, facts, res, 'Start', 'open', owner='resolve::Builder::')
+    gclose = opener_kinds(c, facts, res, 'End', 'close', owner='resolve::Builder::')
+    ginst = {'graph_open_kinds': sorted(gopen), 'graph_close_kinds': sorted(gclose)}
+    if not gopen:
+        c.bad(R, 'graph-builder-never-opened', 'resolve() never opens a current definition in the dependency-graph builder: no edge is recorded and recursion goes undetected')
+    elif set(gopen) == set(gclose):
+        c.ok(R, ginst)
+    else:
+        c.bad(R, 'graph-open-close-kinds-differ:%s' % ','.join(sorted(set(gopen) ^ set(gclose))),
+              'resolve(): the dependency-graph builder\'s current definition is opened for %s but closed for %s: uses that follow the extra closing node inside a declaration add no edge, so cycles through them are never detected' % (sorted(gopen), sorted(gclose)), **ginst)
     # Env::open dominates every binder declaration (direct Env::declare or a helper that reaches it) within each opener
     cg = facts.callgraph()
     envdecl = facts.fn('oal_compiler::env::Env::declare')
